@@ -73,6 +73,11 @@ PROBES = [
                 "AdjED": [{"t": "A"}, {"t": "Reset", "c": {}}, {"t": "Set", "c": {"n": 3}}],
                 "IntE": [{"kind": "A"}, {"kind": "Reset"}, {"kind": "Set", "n": 1}],
                 "HoldsEmpty": [{"e": {}, "d": {}, "x": {"Reset": {}}}, {"e": {}, "d": {}, "x": "A"}]}},
+    # an untagged enum of a unit variant and ONE other variant is schemars' `anyOf [null, X]`: typify reads a nullable X
+    {"name": "p_untagged_unit_plus_one", "types": [
+        _e("Maybe", "untagged", [_v("Nothing"), _v("Point", "struct", fields=[_f("x", STR, mode="default"), _f("on", BOOL, mode="default")])]),
+        _s("HasMaybe", [_f("m", ["ref", "Maybe"]), _f("n", U8)])],
+     "roots": ["HasMaybe"], "values": {"HasMaybe": [{"m": None, "n": 1}, {"m": {"x": "a", "on": True}, "n": 2}]}},
     # members whose default FUNCTION returns a non-empty container / a non-zero scalar: an explicitly empty map, an empty list, a
     # zero are then values of their own and must come back as such
     {"name": "p_default_fn_containers", "types": [
@@ -255,8 +260,15 @@ def attribute(findings, info):
         return hit("C04-untagged-not-exclusive")
     if kind == "accept" and st.get("ptr_int_beyond_32_bits") and re.search(r"expected [ui]32|did not match any variant", info.get("message") or "") and hit("C04-ptr-int-32"):
         return hit("C04-ptr-int-32")
+    # the same narrowing inside an UNTAGGED enum: the variant that holds the pointer-sized integer no longer reads the value, a
+    # later (open, all-optional) variant does, and the value comes back as that other variant
+    if kind in ("return_differs", "return_reject") and st.get("ptr_int_beyond_32_bits") and "untagged" in F and "ptr_int" in F and hit("C04-ptr-int-32"):
+        return hit("C04-ptr-int-32")
     if kind == "return_reject" and st.get("unit_payload_variant") and "unit_payload_variant" in F and hit("C04-unit-payload-variant"):
         return hit("C04-unit-payload-variant")
+    if kind == "nocompile" and any(e.get("code") == "E0428" for e in info.get("rustc_errors") or []) and info.get("dump") and hit("C04-nullable-def-name"):
+        from props import c01 as _c01
+        if _c01.nullable_def_names(info["dump"]): return hit("C04-nullable-def-name")
     if kind == "nocompile" and "one_tuple_variant" in F and any(e.get("code") == "E0308" for e in info.get("rustc_errors") or []) and hit("C04-one-tuple-variant"):
         return hit("C04-one-tuple-variant")
     return None
